@@ -505,6 +505,145 @@ fn main() {
             }
             println!("{{\"trials\": [{}]}}", results.join(","));
         }
+        // ws_seq <0|1> <pre>: sequential bookkeeping of the plain work-steal queue.
+        //  0: the local pop whose tick is a multiple of 61 takes the oldest shared item; afterwards the shared queue's reported
+        //     length must equal what its own pop() drains.  1: a full local queue (capacity 2) overflows into a shared queue
+        //     that already holds <pre> items; reported length + local items must equal everything pushed, and pop() drains it.
+        "ws_seq" => {
+            let kind = num(2);
+            let pre = num(3) as usize;
+            if kind == 0 {
+                let q = open_coroutine_core::common::work_steal::WorkStealQueue::<usize>::new(1, 128);
+                let local = q.local_queue();
+                for i in 0..100 { local.push(1000 + i); }
+                for _ in 0..60 { assert!(local.pop().is_some()); }
+                for i in 0..pre { q.push(10 + i); }
+                let got = local.pop();
+                let reported = q.len();
+                let mut drained = 0;
+                while q.pop().is_some() { drained += 1; }
+                println!("{{\"kind\": 0, \"pre\": {pre}, \"pop61\": {}, \"reported_len\": {reported}, \"drained_by_pop\": {drained}, \"expected\": {}}}",
+                    got.map_or(-1i64, |v| v as i64), pre.saturating_sub(1));
+                std::mem::forget(local);
+                std::mem::forget(q);
+            } else {
+                let q = open_coroutine_core::common::work_steal::WorkStealQueue::<usize>::new(1, 2);
+                let local = q.local_queue();
+                for i in 0..pre { q.push(10 + i); }
+                local.push(1);
+                local.push(2);
+                local.push(3);
+                let in_local = local.len();
+                let reported = q.len();
+                let mut drained = 0;
+                while q.pop().is_some() { drained += 1; }
+                println!("{{\"kind\": 1, \"pre\": {pre}, \"in_local\": {in_local}, \"reported_len\": {reported}, \"drained_by_pop\": {drained}, \"expected\": {}}}",
+                    pre + 3 - in_local);
+                std::mem::forget(local);
+                std::mem::forget(q);
+            }
+            // (items stranded behind a stale length make the queue's Drop assertion fire: leave without running destructors)
+            std::process::exit(0);
+        }
+        // remaining_waiter <drop_write 0|1>: one event loop, two coroutines with interest in ONE socket X - R waits to read it, W
+        // waits to write it (send buffer full). One of them gives up after 50 ms and drops its interest (del_write_event /
+        // del_read_event, what the shutdown hook does); then X becomes ready for the other one. Prints how long the remaining
+        // waiter needed to come back after X became ready (readiness: milliseconds; only its own 2 s timeout: ~2 s).
+        "remaining_waiter" => {
+            use open_coroutine_core::common::constants::{SyscallName, SyscallState};
+            use open_coroutine_core::net::EventLoops;
+            use open_coroutine_core::scheduler::{SchedulableCoroutine, Scheduler};
+            use std::sync::atomic::{AtomicU64, Ordering};
+            use std::time::Duration;
+            static QUITTER_DONE: AtomicU64 = AtomicU64::new(0);
+            static STAYER_WAITING: AtomicU64 = AtomicU64::new(0);
+            static STAYER_DONE_US: AtomicU64 = AtomicU64::new(0);
+            static mut T_BASE: Option<Instant> = None;
+            let drop_write = num(2) != 0;
+            init_event_loops();
+            unsafe { T_BASE = Some(Instant::now()); }
+            let now_us = || unsafe { (*(&raw const T_BASE)).unwrap().elapsed().as_micros() as u64 + 1 };
+            let (x, peer) = socketpair(true);
+            // fill X's send buffer: X is not writable until the peer reads
+            unsafe {
+                let fl = libc::fcntl(x, libc::F_GETFL);
+                libc::fcntl(x, libc::F_SETFL, fl | libc::O_NONBLOCK);
+                let chunk = [0u8; 4096];
+                while libc::write(x, chunk.as_ptr().cast(), chunk.len()) > 0 {}
+            }
+            let spawn = |f: Box<dyn FnOnce(&SchedulableCoroutine<'static>) + 'static>| {
+                let h = EventLoops::submit_task(
+                    None,
+                    move |_| {
+                        let co: SchedulableCoroutine<'static> = open_coroutine_core::co!(
+                            None,
+                            move |_, ()| {
+                                f(SchedulableCoroutine::current().expect("not in coroutine"));
+                                None
+                            },
+                            None,
+                            None
+                        )
+                        .expect("create coroutine");
+                        _ = Scheduler::current().expect("no scheduler").submit_raw_co(co).unwrap();
+                        None
+                    },
+                    None,
+                    None,
+                );
+                _ = h.timeout_join(Duration::from_secs(5));
+            };
+            let long = Duration::from_secs(2);
+            let short = Duration::from_millis(50);
+            // the one that stays
+            spawn(Box::new(move |co| {
+                let name = if drop_write { SyscallName::recv } else { SyscallName::send };
+                co.syscall((), name, SyscallState::Executing).expect("enter syscall");
+                STAYER_WAITING.store(1, Ordering::SeqCst);
+                if drop_write { EventLoops::wait_read_event(x, Some(long)).expect("wait"); } else { EventLoops::wait_write_event(x, Some(long)).expect("wait"); }
+                co.running().expect("leave syscall");
+                STAYER_DONE_US.store(unsafe { (*(&raw const T_BASE)).unwrap().elapsed().as_micros() as u64 + 1 }, Ordering::SeqCst);
+            }));
+            while STAYER_WAITING.load(Ordering::SeqCst) == 0 { std::thread::sleep(Duration::from_millis(1)); }
+            std::thread::sleep(Duration::from_millis(20));
+            // the one that gives up
+            spawn(Box::new(move |co| {
+                let name = if drop_write { SyscallName::send } else { SyscallName::recv };
+                co.syscall((), name, SyscallState::Executing).expect("enter syscall");
+                if drop_write {
+                    EventLoops::wait_write_event(x, Some(short)).expect("wait");
+                    EventLoops::del_write_event(x).expect("del_write_event");
+                } else {
+                    EventLoops::wait_read_event(x, Some(short)).expect("wait");
+                    EventLoops::del_read_event(x).expect("del_read_event");
+                }
+                co.running().expect("leave syscall");
+                QUITTER_DONE.store(1, Ordering::SeqCst);
+            }));
+            let t_wait = Instant::now();
+            while QUITTER_DONE.load(Ordering::SeqCst) == 0 && t_wait.elapsed() < Duration::from_secs(5) { std::thread::sleep(Duration::from_millis(1)); }
+            let quitter_done = QUITTER_DONE.load(Ordering::SeqCst) != 0;
+            std::thread::sleep(Duration::from_millis(50));
+            let early = STAYER_DONE_US.load(Ordering::SeqCst) != 0;
+            let t_ready = now_us();
+            unsafe {
+                if drop_write {
+                    assert_eq!(1, libc::write(peer, [7u8].as_ptr().cast(), 1));
+                } else {
+                    // the peer drains everything: X becomes writable
+                    let fl = libc::fcntl(peer, libc::F_GETFL);
+                    libc::fcntl(peer, libc::F_SETFL, fl | libc::O_NONBLOCK);
+                    let mut b = [0u8; 65536];
+                    while libc::read(peer, b.as_mut_ptr().cast(), b.len()) > 0 {}
+                }
+            }
+            let t_wait = Instant::now();
+            while STAYER_DONE_US.load(Ordering::SeqCst) == 0 && t_wait.elapsed() < Duration::from_secs(4) { std::thread::sleep(Duration::from_millis(1)); }
+            let done = STAYER_DONE_US.load(Ordering::SeqCst);
+            println!("{{\"drop_write\": {}, \"quitter_done\": {quitter_done}, \"stayer_back_before_ready\": {early}, \"stayer_back\": {}, \"latency_us\": {}}}",
+                drop_write as u8, done != 0, if done == 0 { -1i64 } else { done as i64 - t_ready as i64 });
+            std::process::exit(0);
+        }
         // ws_len_race <ordered 0|1> <runs> <threads> <per_thread>: threads push concurrently to the SHARED queue; afterwards
         // (all threads joined) the reported length is compared with the pushes made and with what a drain returns.
         "ws_len_race" => {
@@ -684,6 +823,13 @@ fn main() {
             let mut pool = CoroutinePool::new(String::from("ocv-pool"), 128 * 1024, 0, 1, 0);
             let id = pool.submit_task(Some(String::from("ocv-cancelled")), |_| { _ = RAN.fetch_add(1, Ordering::SeqCst); Some(1) }, None, None).expect("submit");
             CoroutinePool::try_cancel_task(id);
+            if args.get(2).map(String::as_str) == Some("drop") {
+                // what open_coroutine::JoinHandle::try_cancel(self) does next: the handle is dropped, its Drop calls clean_task_result
+                pool.clean_task_result(id);
+                pool.try_schedule_task().expect("schedule");
+                println!("{{\"cancelled_then_handle_dropped\": {{\"ran\": {}}}}}", RAN.load(Ordering::SeqCst));
+                std::process::exit(0);
+            }
             eprintln!("pool_cancel: scheduling after cancel");
             pool.try_schedule_task().expect("schedule");
             eprintln!("pool_cancel: waiting for the cancelled task");
